@@ -424,13 +424,13 @@ static Family cache_family(const std::string &tier)
   f.req_repeat = true;
   if (tier == "quick") {
     f.req_menu = { 0, 1, 2, 4, 6, 8, 10 };
-    f.replies  = { RK_DATA_TTL5, RK_DATA_MULTI, RK_NXDOMAIN, RK_TC, RK_SERVFAIL };
-    f.advances = { 1000, 6000 };
+    f.replies  = { RK_DATA_TTL5, RK_DATA_MULTI, RK_DATA_SOA, RK_NXDOMAIN, RK_NODATA, RK_TC, RK_SERVFAIL };
+    f.advances = { 1000, 6000, 31000 };
     f.setservers = { 0, 3 };
   } else {
     f.req_menu   = { 0, 1, 2, 3, 4, 5, 6, 7, 8, 9, 10 };
-    f.replies    = { RK_DATA, RK_DATA_TTL5, RK_DATA_TTL0, RK_DATA_MULTI, RK_NXDOMAIN, RK_NXDOMAIN_NOSOA, RK_NODATA, RK_TC, RK_SERVFAIL };
-    f.advances   = { 1000, 4000, 6000, 3601000 };
+    f.replies    = { RK_DATA, RK_DATA_TTL5, RK_DATA_TTL0, RK_DATA_MULTI, RK_DATA_SOA, RK_NXDOMAIN, RK_NXDOMAIN_NOSOA, RK_NODATA, RK_TC, RK_SERVFAIL };
+    f.advances   = { 1000, 4000, 6000, 31000, 3601000 };
     f.setservers = { 0, 2, 3 };
   }
   f.evmask     = EVBIT(EV_REQ) | EVBIT(EV_REPLY) | EVBIT(EV_IO) | EVBIT(EV_ADVANCE) | EVBIT(EV_SETSERVERS) | EVBIT(EV_REINIT);
@@ -484,6 +484,12 @@ static Family failover_family(const std::string &tier)
     c.auto_io      = true;
     c.preamble     = { { EV_REQ, 0, 0 }, { EV_TIMER, 0, 0 } };
     f.cfgs.push_back(c);
+    Cfg e          = cfg("srv2-norotate-chance1-delay5000-tries2-from-failed0", 2, 2, 0);
+    e.retry_chance = 1;
+    e.retry_delay  = 5000;
+    e.auto_io      = true;
+    e.preamble     = { { EV_REQ, 0, 0 }, { EV_TIMER, 0, 0 } };
+    f.cfgs.push_back(e);
     Cfg d          = cfg("srv3-norotate-chance0-tries2-from-failed0", 3, 2, 0);
     d.retry_chance = 0;
     d.auto_io      = true;
